@@ -1,11 +1,45 @@
 """C05 - remote events: exactly once, in order, to the intended recipients only."""
+import os
+import sys
+from common import VERIF
 from simcheck import sim_check
+
+sys.path.insert(0, os.path.join(VERIF, "gen"))
+import scripts as gen_scripts
+
+
+def long_sessions(rng, tier):
+    """a connection that has been quiet for a long time next to a fresh one: their update ticks differ by more than one
+    encoding width (>= 128, >= 16384 in the thorough tier) when the same buffered event is stamped for both"""
+    out = []
+    for i in range(4 if tier == "quick" else 40):
+        gap = rng.choice([130, 140, 200]) if (tier == "quick" or i % 8) else 16500
+        lines = ["cfg policy=all auth=none track=0 nclients=3 timeout=10000", "start", "sframe 0 10", "connect 0 1200"]
+        lines += ["sop spawn 1 1 0=%d" % rng.randrange(50), "sframe 1 16", "deliver 0 s2c 0 all", "cframe 0", "deliver 0 c2s 0 all"]
+        lines += ["sframe 1 16"] * gap
+        lines += ["connect 1 1200"]
+        if rng.random() < 0.5:
+            lines += ["sop spawn 2 1 0=1", "sframe 1 16", "deliver 1 s2c 0 all", "cframe 1"]
+        seq = 0
+        for _ in range(rng.randrange(2, 6)):
+            seq += 1
+            ty = rng.choice(["SE0", "SE0", "SEU", "ST", "SEI"])
+            mode = rng.choice(["b", "b", "x0", "x1", "d0", "d1"])
+            lines.append("sop ev %s %s %d" % (ty, mode, seq))
+            if rng.random() < 0.5:
+                lines.append("sframe 1 16")
+        lines.append("sframe 1 16")
+        meta = dict(connected=[0, 1], events=True)
+        sf = len(lines)
+        lines += gen_scripts.settle_lines(meta)
+        out.append(("long-session-%d" % i, lines, sf))
+    return out
 
 
 def run(tier, seed, replay):
     kws = [dict(events=True, weights=dict(sev=4.0, cev=3.0, edeliver=6.0)), dict(events=True, nclients=3, sessions=True), dict(events=True, auth="custom", nclients=2), dict(events=True, nclients=3, weights=dict(session=0.6))]
-    return sim_check("C05", tier, seed, kws, n_quick=240, n_thorough=24000, oracle_props={"C05"},
-                     rule_extra=", events of five server types and three client types in both directions, all send modes, clients connecting, authorizing and disconnecting at arbitrary points",
+    return sim_check("C05", tier, seed, kws, n_quick=240, n_thorough=24000, oracle_props={"C05"}, custom_scripts=long_sessions,
+                     rule_extra=", long-lived quiet connections next to fresh ones (update ticks of different encoding widths), events of five server types and three client types in both directions, all send modes, clients connecting, authorizing and disconnecting at arbitrary points",
                      extra_assumptions=["intended recipients of a dependent event are the connections that exist when it is written and are authorized when the tick flushes it (unauthorized connections only get independent events, C07)",
                                         "a reconnect happens after at least one client frame (C09's premise); otherwise the event queue of the old session survives (C05_quick_reconnect_receives_old_event)",
                                         "channels' own guarantees (reliable = no loss/duplication, ordered = FIFO) are the backend's; the scripts only take the deliveries those contracts allow"],
